@@ -444,7 +444,8 @@ class Exporter:
             return False
         elif from_stage < to_stage:
             for child in node.children:
-                if self.is_signature_cancelled(signature_node, child, from_stage + 1, to_stage):
+                # children may lie more than one stage below (global comments are stages too): count real stages
+                if self.is_signature_cancelled(signature_node, child, child.stage, to_stage):
                     return True
             return False
 
